@@ -14,7 +14,7 @@
 (*                                                                         *)
 (* Denotation: [shape |-> Seq(Nat), el |-> Seq(element polynomial)]        *)
 (***************************************************************************)
-EXTENDS Poly, Shape
+EXTENDS Poly, Shape, TLC
 
 KeyOffset == 59
 ForbiddenCodePoint == 58
@@ -106,6 +106,81 @@ DCumSumAxis(a, ax) ==
                     a.el[1 + Ravel([x \in 1..Len(mi) |-> IF x = ax + 1 THEN j ELSE mi[x]], a.shape)]),
                  EZero, 0..mi[ax + 1])]]
 DRavel(a) == [shape |-> <<Len(a.el)>>, el |-> a.el]
+
+\* --------------------------------------------- differences and linear algebra
+SetAx(mi, ax, j) == [x \in 1..Len(mi) |-> IF x = ax + 1 THEN j ELSE mi[x]]
+DAt(a, mi) == a.el[1 + Ravel(mi, a.shape)]
+DDiff1(a, ax) ==
+  LET t == [j \in 1..Len(a.shape) |-> IF j = ax + 1 THEN (IF a.shape[j] > 0 THEN a.shape[j] - 1 ELSE 0)
+                                         ELSE a.shape[j]]
+  IN [shape |-> t,
+      el |-> [k \in 1..Size(t) |->
+                LET mi == Unravel(k - 1, t)
+                IN ESub(DAt(a, SetAx(mi, ax, mi[ax + 1] + 1)), DAt(a, mi))]]
+RECURSIVE DDiffN(_, _, _)
+DDiffN(a, n, ax) == IF n = 0 THEN a ELSE DDiffN(DDiff1(a, ax), n - 1, ax)
+DConcatAxis(ds, ax) == DGather(GConcat([i \in 1..Len(ds) |-> ds[i].shape], ax), ds)
+\* scalars given as prepend/append are expanded to extent 1 along the axis
+ExpandAlong(p, a, ax) ==
+  IF p.shape = <<>> THEN DBroadcast(p, [j \in 1..Len(a.shape) |-> IF j = ax + 1 THEN 1 ELSE a.shape[j]]) ELSE p
+DDiff(a, n, ax, pre, app) ==       \* pre, app: <<>> or <<denotation>>
+  LET parts == (IF pre = <<>> THEN <<>> ELSE <<ExpandAlong(pre[1], a, ax)>>) \o <<a>>
+               \o (IF app = <<>> THEN <<>> ELSE <<ExpandAlong(app[1], a, ax)>>)
+  IN IF n = 0 THEN a      \* numpy returns the input as-is, prepend / append are not even looked at
+     ELSE DDiffN(IF Len(parts) = 1 THEN a ELSE DConcatAxis(parts, ax), n, ax)
+DEDiff1d(a, begin, end) ==         \* begin, end: <<>> or <<denotation>>
+  LET d == DDiff1(DRavel(a), 0)
+      parts == (IF begin = <<>> THEN <<>> ELSE <<DRavel(begin[1])>>) \o <<d>>
+               \o (IF end = <<>> THEN <<>> ELSE <<DRavel(end[1])>>)
+  IN IF Len(parts) = 1 THEN d ELSE DConcatAxis(parts, 0)
+\* vectors
+DInnerVec(a, b) == DScalar(FoldLeft(LAMBDA acc, k : EAdd(acc, EMul(a.el[k], b.el[k])), EZero,
+                                     [k \in 1..Len(a.el) |-> k]))
+DOuter(a, b) ==
+  LET na == Len(a.el) nb == Len(b.el)
+  IN [shape |-> <<na, nb>>,
+      el |-> [k \in 1..(na * nb) |-> EMul(a.el[1 + ((k - 1) \div nb)], b.el[1 + ((k - 1) % nb)])]]
+\* matmul with numpy's rules: 1-d operands are promoted and the added axis removed again,
+\* leading (batch) axes broadcast
+MatMulOK(sa, sb) ==
+  /\ Len(sa) >= 1 /\ Len(sb) >= 1
+  /\ sa[Len(sa)] = (IF Len(sb) = 1 THEN sb[1] ELSE sb[Len(sb) - 1])
+  /\ BroadcastOK2(IF Len(sa) <= 2 THEN <<>> ELSE SubSeq(sa, 1, Len(sa) - 2),
+                  IF Len(sb) <= 2 THEN <<>> ELSE SubSeq(sb, 1, Len(sb) - 2))
+DMatMul(a, b) ==
+  LET sa == IF Len(a.shape) = 1 THEN <<1, a.shape[1]>> ELSE a.shape
+      sb == IF Len(b.shape) = 1 THEN <<b.shape[1], 1>> ELSE b.shape
+      ba == SubSeq(sa, 1, Len(sa) - 2)  bb == SubSeq(sb, 1, Len(sb) - 2)
+      batch == BShape2(ba, bb)
+      n == sa[Len(sa) - 1]  kk == sa[Len(sa)]  m == sb[Len(sb)]
+      full == batch \o <<n, m>>
+      nb == Len(batch)
+      PadIdx(bi, s) ==      \* batch multi-index bi (rank nb) -> multi-index into a batch shape s
+        [j \in 1..Len(s) |-> IF s[j] = 1 THEN 0 ELSE bi[j + nb - Len(s)]]
+      elem(k) ==
+        LET mi == Unravel(k - 1, full)
+            bi == SubSeq(mi, 1, nb)
+            i == mi[nb + 1]  j == mi[nb + 2]
+        IN FoldLeft(LAMBDA acc, x : EAdd(acc,
+               EMul(a.el[1 + Ravel(PadIdx(bi, ba) \o <<i, x - 1>>, sa)],
+                    b.el[1 + Ravel(PadIdx(bi, bb) \o <<x - 1, j>>, sb)])), EZero, [x \in 1..kk |-> x])
+      els == [k \in 1..Size(full) |-> elem(k)]
+      outShape == batch \o (IF Len(a.shape) = 1 THEN <<>> ELSE <<n>>) \o (IF Len(b.shape) = 1 THEN <<>> ELSE <<m>>)
+  IN [shape |-> outShape, el |-> els]
+\* determinant by Leibniz expansion over the last two axes
+PermSign(p, n) == IF Cardinality({pr \in (1..n) \X (1..n) : pr[1] < pr[2] /\ p[pr[1]] > p[pr[2]]}) % 2 = 0 THEN 1 ELSE -1
+DDet(a) ==
+  LET n == a.shape[Len(a.shape)]
+      batch == SubSeq(a.shape, 1, Len(a.shape) - 2)
+      perms == Permutations(1..n)
+      elem(k) ==
+        LET bi == Unravel(k - 1, batch)
+        IN FoldSet(LAMBDA p, acc : EAdd(acc, EScale(NInt(PermSign(p, n)),
+                 FoldLeft(LAMBDA pr, i : EMul(pr, a.el[1 + Ravel(bi \o <<i - 1, p[i] - 1>>, a.shape)]),
+                          EOne, [i \in 1..n |-> i]))), EZero, perms)
+  IN [shape |-> batch, el |-> [k \in 1..Size(batch) |-> elem(k)]]
+\* closeness of polynomials, for the places where IEEE rounding is inherent (mean)
+EClose(f, g, bits) == DOMAIN f = DOMAIN g /\ \A m \in DOMAIN f : NClose(f[m], g[m], bits)
 
 \* --------------------------------------- attribute triples and cleaning (C03)
 \* an attribute triple: [rows, coefs (per row list of Num), names, shape]
